@@ -87,10 +87,12 @@ v('vacuum-deletes-before-commit','C04.vacuum-order','vtable_common.go','''	_, er
 ''')
 v('insert-commits','C05.effects','vtable_common.go','''	err = c.Tree.Root.Set(ctx, t, NewKey(key), merged)
 	if err != nil {
+		c.txFailed = err
 		return 0, fmt.Errorf("set: %w", err)
 	}
 	return 0, nil''','''	err = c.Tree.Root.Set(ctx, t, NewKey(key), merged)
 	if err != nil {
+		c.txFailed = err
 		return 0, fmt.Errorf("set: %w", err)
 	}
 	if _, err = c.Tree.Root.Commit(ctx); err != nil {
